@@ -249,14 +249,14 @@ class CliSim:
         if cmd == 'clip':
             seam = rng.choice(['write', 'write', 'mfopen', 'ncfix.open', 'tmp'])
             if seam == 'write':
-                return [{'seam': 'write', 'nth': rng.choice([1, 2, 3, 4, 6]), 'kind': rng.choice(['ENOSPC', 'EIO', 'partial', 'crash', 'crash_after'])}]
+                return [{'seam': 'write', 'nth': rng.choice([1, 2, 3, 4, 6]), 'kind': rng.choice(['ENOSPC', 'EIO', 'partial', 'crash', 'crash_after', 'sigterm'])}]
             if seam == 'mfopen':
                 return [{'seam': 'mfopen', 'nth': 1, 'kind': rng.choice(['EIO', 'crash'])}]
             if seam == 'tmp':
                 return [{'seam': 'tmp', 'nth': 1, 'kind': 'ENOSPC'}] if inv.get('work_dir') is None else []
             return [{'seam': 'ncfix.open', 'nth': 1, 'kind': rng.choice(['EACCES', 'crash'])}]
         if cmd == 'extract-points':
-            return [{'seam': 'write', 'nth': 1, 'kind': rng.choice(['ENOSPC', 'partial', 'crash', 'crash_after'])}]
+            return [{'seam': 'write', 'nth': 1, 'kind': rng.choice(['ENOSPC', 'partial', 'crash', 'crash_after', 'sigterm'])}]
         return [{'seam': rng.choice(['fwrite', 'fwrite', 'fopen', 'fclose']), 'nth': rng.choice([1, 1, 2, 4]), 'kind': rng.choice(['ENOSPC', 'EIO', 'crash'])}]
 
     def shrink(self, plan):
@@ -459,7 +459,7 @@ class CliSim:
                     groups.append(cur)
                     cur = []
                 cur.append(p)
-                if any(f['kind'] in ('crash', 'crash_after') for f in p['inv'].get('faults', [])):
+                if any(f['kind'] in ('crash', 'crash_after', 'sigterm') for f in p['inv'].get('faults', [])):
                     groups.append(cur)
                     cur = []
             if cur:
